@@ -397,7 +397,7 @@ Spec == Init /\ [][Next]_vars
 
 \* State constraint of Conn_c05.cfg: the data dimension is explored in the
 \* configuration without TLS only (TLS plays no role once authenticated)
-DataOnlyWithoutTls == tls => (boxes = {} /\ ~fl /\ ~grew)
+DataOnlyWithoutTls == (tls \/ stls) => (boxes = {} /\ ~fl /\ ~grew)
 
 \* The same clauses as temporal formulas over the unchecked actions (slower
 \* for TLC: checked in the thorough tier)
